@@ -9,9 +9,11 @@ readme fixes are *not generated*:
   * non-unit-step and negative-step slices (exporter refuses them; C03 territory)
   * no-connects on instance arrays and pairs
   * port references to ports of arrays that are wired per element, and to pair ports
-  * anonymous bundles with members the port's bundle lacks
   * pairs of modules that have bundle-valued ports
-  * the same object under two names; names re-used inside a module
+  * the same object under two names
+(Two earlier entries are now decided and planted as C02 fault classes instead: an anonymous
+bundle with a member its port lacks - `extra_member`; a connected signal replaced under its own
+name - `orphan_replaced`.)
 """
 from . import refmodel
 from .refmodel import DIFF
